@@ -94,6 +94,15 @@ def check(idx: Index, rep: Report, tier: str) -> str:
     r = rep.rule("C20.R1", "every register added to the scratch pool derives from the operation's designated free registers", floor=2)
     apps = [c for c in calls_in(f.node) if call_attr(c) in ("append", "insert", "appendleft", "add") and isinstance(c.func, ast.Attribute) and re.match(r"free_registers(\[|\.setdefault\()", unparse(c.func.value)) and c.args]
     if len(apps) < 1:
+        # the pool may be there under another binding: a local that receives `<pool>[...].append(reg)` and stands for a
+        # field of the pattern object is state shared by every parallel move the pattern instance lowers
+        for c in calls_in(f.node):
+            if call_attr(c) in ("append", "insert", "add") and isinstance(c.func, ast.Attribute) and isinstance(c.func.value, ast.Subscript) and isinstance(c.func.value.value, (ast.Name, ast.Attribute)):
+                pool = c.func.value.value
+                txt = resolved_text(cfg, pool, cfg.node_of(c))
+                if re.fullmatch(r"self\.\w+", txt):
+                    r.fail(f"{f.fq}:pool", Finding("C20.R1", f.fq, f"scratch-pool-kept-on-pattern:{txt}", f"`{unparse(c)[:70]}` adds a scratch register to `{txt}`, a field of the pattern object: one pattern instance lowers every riscv.parallel_mov of the module, so registers that were free (or became free) at an earlier move are still listed when a later move breaks a cycle, and are overwritten although they may be live there", f"{PM}:{c.lineno}"))
+                    break
         raise AnalysisError(f"{f.fq}: scratch pool appends not found")
     for c in apps:
         a = c.args[-1] if call_attr(c) == "insert" else c.args[0]
